@@ -1,6 +1,9 @@
 import FormulaicVerif.Engines.Json
 import FormulaicVerif.Model.Encode
+import FormulaicVerif.Model.Encode2
+import FormulaicVerif.Model.EncodeDt
 import FormulaicVerif.Gen.KindTable
+import FormulaicVerif.Gen.DtypeTable
 /-! Engine of property C08: runs `Model.Encode` on JSON requests, always against the GENERATED kind table. -/
 namespace FormulaicVerif.Engines.C08
 open Lean FormulaicVerif.Model FormulaicVerif.Model.Encode FormulaicVerif.Engines
@@ -51,15 +54,145 @@ def cellJ : Cell → Json
 def kindStr : FKind → String
   | .categorical => "categorical" | .numerical => "numerical" | .error => "error"
 
+/-! ### requests of the extended model (`Model/PyLevels.lean`, `Model/Encode2.lean`) -/
+section ext
+open FormulaicVerif.Model.PyLevels FormulaicVerif.Model.Enc2
+
+/-- `{"s": text} | {"i": "123"} | {"b": true} | {"f": "3/2"} | {"y": bytes}`; anything else is a null -/
+def pyValOf (j : Json) : Option PyVal :=
+  match j.getObjVal? "s" with
+  | .ok (.str s) => some (.str s)
+  | _ =>
+  match j.getObjVal? "i" with
+  | .ok (.str s) => some (.int (s.toInt?.getD 0))
+  | _ =>
+  match j.getObjVal? "b" with
+  | .ok (.bool b) => some (.bool b)
+  | _ =>
+  match j.getObjVal? "f" with
+  | .ok (.str s) => some (.flt (ratOfString s))
+  | _ =>
+  match j.getObjVal? "y" with
+  | .ok (.str s) => some (.bytes s)
+  | _ => none
+
+def pyValsOpt (j : Json) (k : String) : Option (List PyVal) :=
+  match j.getObjVal? k with
+  | .ok (.arr a) => some (a.toList.filterMap pyValOf)
+  | _ => none
+
+def pyValJ : PyVal → Json
+  | .str s => Json.mkObj [("s", Json.str s)]
+  | .int i => Json.mkObj [("i", Json.str (toString i))]
+  | .bool b => Json.mkObj [("b", Json.bool b)]
+  | .flt q => Json.mkObj [("f", Json.str (ratStr q))]
+  | .bytes s => Json.mkObj [("y", Json.str s)]
+
+def in2Of (j : Json) : Enc2.In :=
+  ⟨jstr j "name", jstr j "dtype", pyValsOpt j "declared", (jarr j "vals").map pyValOf⟩
+
+def scaleOf (j : Json) : Option Scale :=
+  match j.getObjVal? "scale" with
+  | .ok s =>
+    match s.getObjVal? "i", s.getObjVal? "f" with
+    | .ok (.str x), _ => some (.int (x.toInt?.getD 0))
+    | _, .ok (.str x) => some (.flt (ratOfString x))
+    | _, _ => none
+  | _ => none
+
+def ratsOf (j : Json) : List Rat := (asArr j).map (fun x => ratOfString (asStr x))
+
+/-- `{"matrix": [["1","0"],…]}` | `{"dict": [["lo", ["1","-1"]], …]}` -/
+def customOf (j : Json) : Option Custom :=
+  match j.getObjVal? "matrix", j.getObjVal? "dict" with
+  | .ok (.arr a), _ => some (.matrix (a.toList.map ratsOf))
+  | _, .ok (.arr a) => some (.dict (a.toList.map (fun e => match asArr e with | [k, w] => (asStr k, ratsOf w) | _ => ("", []))))
+  | _, _ => none
+
+/-- the factor's text is written by the model (`Enc2.exprOf`); a factor whose text is not modelled gets a
+text no formula can contain, so that the case shows up as a disagreement instead of passing unnoticed.
+`C(x, contr.treatment)` (the coding class as argument) is the one spelling the structure does not
+determine: the harness flags it. -/
+def termOf (j : Json) : Enc2.Term :=
+  let fid : FactorId := ⟨jstr j "name", jbool j "isC", pyValOf (jval j "base"), pyValsOpt j "levels", customOf (jval j "custom")⟩
+  let expr := if jbool j "classArg" then "C(" ++ fid.name ++ ", contr.treatment)" else (exprOf fid).getD "<text not modelled>"
+  ⟨expr, scaleOf j, fid⟩
+
+def outOf : String → Output
+  | "numpy" => .numpy
+  | "sparse" => .sparse
+  | "narwhals" => .narwhals
+  | _ => .pandas
+
+def callOf (j : Json) : Enc2.Call :=
+  ⟨jbool j "intercept", jbool j "efr", naOf (jstr j "na"), outOf (jstr j "output"), (jarr j "terms").map termOf⟩
+
+def resultJ : Except Enc2.Err (List OutCol) → Json
+  | .error e => jerr e.name
+  | .ok cols =>
+    Json.mkObj [("columns", jlist (cols.map (fun c =>
+      Json.mkObj [("name", Json.str c.1), ("values", jlist (c.2.map cellJ))])))]
+
+def withDtypes (r : Json) (d : Except Enc2.Err (List Dtypes.NDt)) : Json :=
+  r.setObjVal! "dtypes" (match d with
+    | .ok ds => jstrs (ds.map (·.name))
+    | .error e => Json.str e.name)
+
+def handleExt (j : Json) : Option Json :=
+  match jstr j "op" with
+  | "history" =>
+    let reset := match j.getObjVal? "reset" with | .ok (.bool false) => false | _ => true
+    let frame := (jarr j "cols").map in2Of
+    let calls := (jarr j "calls").map callOf
+    let m := matOf (jstr j "mat")
+    let rs := runHistory reset Gen.kindTable m (jnat j "nrows") frame calls Caches.empty
+    some (Json.mkObj [("results", jlist ((rs.zip calls).map (fun (r, k) =>
+      match r with
+      | .ok _ => withDtypes (resultJ r) (callDtypes Gen.dtypeTables Gen.kindTable m (jnat j "nrows") frame k)
+      | .error _ => resultJ r)))])
+  | "apply" =>
+    let lvls := (jarr j "levels").filterMap pyValOf
+    let codes := (jarr j "codes").map (fun c => match c.getNat? with | .ok n => some n | .error _ => none)
+    match labelsOf lvls with
+    | .error e => some (jerr e.name)
+    | .ok labels =>
+      match applyTreatment .pandas (pyValOf (jval j "base")) (jbool j "reduced") lvls (dummies labels codes) with
+      | .error e => some (jerr e.name)
+      | .ok enc => some (Json.mkObj [("columns", jlist (enc.fields.map (fun c =>
+          Json.mkObj [("name", Json.str c.1), ("values", jlist (c.2.map cellJ))])))])
+  | "levels2" =>
+    let vals := (jarr j "vals").map pyValOf
+    let lv := levelsOf vals (pyValsOpt j "declared")
+    if (match pyValsOpt j "declared" with | some d => hasDup d | none => false) then some (jerr "ValueError") else
+    -- `encode_contrasts`: `raise ValueError(f"Unknown output type ...")` after the levels were found
+    if !(["pandas", "numpy", "sparse", "narwhals"].contains (jstr j "output")) then some (jerr "ValueError") else
+    -- `categorical_encode_series_to_sparse_csc_matrix(series, levels, drop_first)`: the first level is taken out of the
+    -- categories (its rows become all zero) before the codes are read
+    let lv2 := if jbool j "drop_first" then lv.drop 1 else lv
+    some (Json.mkObj [("levels", jlist (lv.map pyValJ)),
+      ("sparse_levels", jlist (lv2.map pyValJ)),
+      ("sparse_codes", jlist ((recode lv2 vals).map (fun c => match c with | some n => Json.num n | none => Json.null))),
+      ("labels", match labelsOf lv with | .ok ls => jstrs ls | .error e => Json.str e.name),
+      ("sortable", Json.bool (sortMixed (uniques vals)).isSome),
+      ("codes", jlist ((recode lv vals).map (fun c => match c with | some n => Json.num n | none => Json.null)))])
+  | _ => none
+
+end ext
+
 def handle (j : Json) : Json :=
+  match handleExt j with
+  | some r => r
+  | none =>
   match jstr j "op" with
   | "build" =>
     let o : Opts := ⟨jbool j "intercept", jbool j "efr", naOf (jstr j "na")⟩
     match build Gen.kindTable (matOf (jstr j "mat")) o (jnat j "nrows") ((jarr j "cols").map inOf) with
-    | .error e => jerr e.name
+    | .error e => (jerr e.name).setObjVal! "new" ((handleExt (jval j "hist")).getD Json.null)
     | .ok cols =>
       Json.mkObj [("columns", jlist (cols.map (fun c =>
-        Json.mkObj [("name", Json.str c.1), ("values", jlist (c.2.map cellJ))])))]
+        Json.mkObj [("name", Json.str c.1), ("values", jlist (c.2.map cellJ))]))),
+        -- the same frame through the extended model (`Model/Encode2.lean`)
+        ("new", (handleExt (jval j "hist")).getD Json.null)]
   | "kind" =>
     match inferKind Gen.kindTable (matOf (jstr j "mat")) (jstr j "dtype") with
     | .error e => jerr e.name
